@@ -8,7 +8,7 @@ IMPL_ENV = netgen.net_env()
 RULE = (
     "real multi-thread tokio runtime, real TCP + IPC listeners of every bound socket type, raw clients that at byte "
     "offset k of greeting+READY either STOP (stay silent), CLOSE, or switch to GARBAGE: k over a boundary grid (quick: "
-    "0,1,9,10,11,12,31,32,33,63,64,65,66,70,80,last-1; thorough: EVERY offset 0..=N) x 3 behaviours x 1..3 simultaneous "
+    "0,1,9,10,11,12,31,32,33,63,64,65,66,70,80,last-1; thorough: EVERY offset 0..=N for PULL and ROUTER, the grid for the other types) x 3 behaviours x 1..3 simultaneous "
     "such clients x transports x socket types, with well-behaved clients connecting BEFORE (established, carries a "
     "message afterwards), DURING and AFTER. Observed classes: good clients complete the handshake, the established "
     "connection still delivers, the monitor's event multiset (Accepted / AcceptFailed), each awaited up to a deadline. "
@@ -73,7 +73,8 @@ def cases(tier, rng):
     grid_quick = [0, 1, 9, 10, 11, 12, 31, 32, 33, 63, 64, 65, 66, 70, 80, 10**6]
     for t in (["PULL", "ROUTER", "PUB", "REP"] if tier == "quick" else netgen.TYPES9):
         N = netgen.hs_len(netgen.PEER[t])
-        grid = grid_quick if tier == "quick" else list(range(0, N + 1))
+        # thorough: EVERY offset for two socket types (the handshake code is shared by all), the boundary grid for the others
+        grid = grid_quick if (tier == "quick" or t not in ("PULL", "ROUTER")) else list(range(0, N + 1))
         for tr in (trs if tier != "quick" else ["tcp4", "ipc"] if "ipc" in trs else ["tcp4"]):
             for beh in ("stop", "close", "garbage"):
                 for k in (grid if (t == "PULL" or tier != "quick") else grid[::3]):
